@@ -230,8 +230,13 @@ Proof.
   destruct (N.leb nj ni && N.ltb ni w) eqn:Eji; [|discriminate Hev]. injection Hev as <-.
   apply andb_true_iff in Eji as [Hji Hiw]. apply N.leb_le in Hji. apply N.ltb_lt in Hiw.
   rewrite N2Z.id.
-  destruct (slice_extract x w ni nj Rw Rx Hji Hiw) as (S1 & S2 & S3). cbv zeta in S1, S2, S3.
+  match goal with |- eval rho (L (cHASH :: c_b :: ?sl)) = _ => set (SL := sl) end.
+  assert (S : forallb is_bin SL = true /\ length SL = N.to_nat (ni - nj + 1) /\
+              bin_val SL = ((x / 2 ^ nj) mod 2 ^ (ni - nj + 1))%N)
+    by exact (slice_extract x w ni nj Rw Rx Hji Hiw).
+  destruct S as (S1 & S2 & S3).
   rewrite eval_bin_lit; [|exact Hlf|exact S1|].
-  - rewrite S2, S3. f_equal. f_equal. lia.
+  - f_equal. f_equal; [|exact S3].
+    transitivity (N.of_nat (N.to_nat (ni - nj + 1))); [f_equal; exact S2 | lia].
   - intros E. rewrite E in S2. cbn in S2. lia.
 Qed.
